@@ -611,17 +611,17 @@ class RelativeJSONPointer:
         # Array index offset
         if self.index and parts and self._int_like(parts[-1]):
             new_index = int(parts[-1]) + self.index
+            try:
+                str(new_index)
+            except ValueError as err:
+                # Too many digits to render, as a reference token or in a message.
+                raise RelativeJSONPointerIndexError(
+                    "index offset out of range"
+                ) from err
             if new_index < 0:
                 raise RelativeJSONPointerIndexError(
                     f"index offset out of range {new_index}"
                 )
-            try:
-                str(new_index)
-            except ValueError as err:
-                # Too many digits to render as a reference token.
-                raise RelativeJSONPointerIndexError(
-                    "index offset out of range"
-                ) from err
             parts[-1] = new_index
 
         # Pointer or index/property
